@@ -161,3 +161,13 @@ mut("ordered_try_write_empty_refuses", "src/collection/utils.rs",
     "pub unsafe fn ordered_try_write(locks: &[&dyn RawLock]) -> bool {\n\tlet locked = Cell::new(0);\n",
     "pub unsafe fn ordered_try_write(locks: &[&dyn RawLock]) -> bool {\n\tif locks.is_empty() {\n\t\treturn false;\n\t}\n\tlet locked = Cell::new(0);\n",
     [("C13", "X2"), ("C04", "X2")])
+
+mut("guard_data_with_lock_lifetime", "src/mutex/guard.rs", "impl<'a, T: ?Sized, R: RawMutex> MutexRef<'a, T, R> {",
+    "impl<'a, T: ?Sized, R: RawMutex> MutexRef<'a, T, R> {\n\t/// The protected value.\n\tpub fn get(&self) -> &'a T {\n\t\tunsafe { &*self.0.data.get() }\n\t}\n",
+    [("C15", "A6")])
+mut("guard_gives_lock_back", "src/mutex/guard.rs", "impl<'a, T: ?Sized, R: RawMutex> MutexRef<'a, T, R> {",
+    "impl<'a, T: ?Sized, R: RawMutex> MutexRef<'a, T, R> {\n\t/// The mutex this hold belongs to.\n\tpub fn mutex(&self) -> &Mutex<T, R> {\n\t\tself.0\n\t}\n",
+    [("C15", "O3"), ("C01", "O3")])
+mut("lockguard_into_inner", "src/collection/guard.rs", "impl<Guard> AsRef<Guard> for LockGuard<Guard> {",
+    "impl<Guard> LockGuard<Guard> {\n\t/// Gives up the key and keeps the locks.\n\tpub fn into_holds(self) -> Guard {\n\t\tself.guard\n\t}\n}\n\nimpl<Guard> AsRef<Guard> for LockGuard<Guard> {",
+    [("C03", "R6"), ("C14", "R6")])
